@@ -590,6 +590,7 @@ func TestC21(t *testing.T) {
 		"poll's interval argument is built by hand (physical constant): it cannot be passed through SQL at all",
 		"the wall clock is read by poll only; the oracle compares clock readings with each other, never with a value of its own")
 	ev.Check(t, r, "tumble", ev.N(120000, 2500000), c21TumbleGen, c21TumbleProp)
+	ev.Check(t, r, "tumble_pruned_columns", ev.N(40000, 800000), c21PrunedGen, c21PrunedProp)
 	ev.Enumerate(t, r, "range_exhaustive", func(yield func(c21Range) bool) {
 		for s := int64(-20); s <= 20; s++ {
 			for e := int64(-20); e <= 20; e++ {
